@@ -283,7 +283,7 @@ func (pe *pathEnum) inlineFrom(b *ssa.BasicBlock, i int, blocks []*ssa.BasicBloc
 					if pc.At == nil {
 						continue
 					}
-					ct := env.Term(pc.At.Cond)
+					ct := foldCond(env.Term(pc.At.Cond))
 					truth := cp.truthAt(pc.At)
 					if ct.K == "const" && ct.C != nil && ct.C.Kind() == constant.Bool {
 						if constant.BoolVal(ct.C) != truth {
@@ -320,7 +320,7 @@ func (pe *pathEnum) inlineFrom(b *ssa.BasicBlock, i int, blocks []*ssa.BasicBloc
 	case *ssa.Jump:
 		pe.walk(b.Succs[0], b, blocks, conds, phi, onPath, x)
 	case *ssa.If:
-		ct := env.Term(t.Cond)
+		ct := foldCond(env.Term(t.Cond))
 		if ct.K == "const" && ct.C != nil && ct.C.Kind() == constant.Bool {
 			if constant.BoolVal(ct.C) {
 				pe.walk(b.Succs[0], b, blocks, conds, phi, onPath, x)
@@ -339,6 +339,42 @@ func (pe *pathEnum) inlineFrom(b *ssa.BasicBlock, i int, blocks []*ssa.BasicBloc
 	default:
 		pe.err = fmt.Errorf("unexpected block terminator %T", last)
 	}
+}
+
+// foldCond: a condition that became closed once helper results were substituted (nil != nil after a
+// helper's success return was taken, 3 > 2) is the constant it evaluates to.
+func foldCond(t *T) *T {
+	if t.K == "bin" && (t.Op == token.EQL || t.Op == token.NEQ) && len(t.Args) == 2 {
+		a, b := t.Args[0], t.Args[1]
+		if a.K == "const" && b.K == "const" && a.C == nil && b.C == nil {
+			return &T{K: "const", C: constant.MakeBool(t.Op == token.EQL), Typ: types.Typ[types.Bool]}
+		}
+	}
+	if t.K == "bin" || t.K == "un" {
+		closed := true
+		var walk func(x *T)
+		walk = func(x *T) {
+			switch x.K {
+			case "const":
+				if x.C == nil {
+					closed = false
+				}
+			case "bin", "un", "conv":
+				for _, a := range x.Args {
+					walk(a)
+				}
+			default:
+				closed = false
+			}
+		}
+		walk(t)
+		if closed && isBoolType(t.Typ) {
+			if v, ok := evalTerm(t, map[string]*big.Int{}); ok {
+				return &T{K: "const", C: constant.MakeBool(v.Sign() != 0), Typ: types.Typ[types.Bool]}
+			}
+		}
+	}
+	return t
 }
 
 // truthAt: which way the path went at a branch (true = first successor).
